@@ -1,6 +1,6 @@
 SPECIFICATION Spec
 CONSTANTS
   Depth = 2
-  Explicit = FALSE
+  Explicit = TRUE
 INVARIANTS ErrorBeforeTouch Precedence NearestOnly Emit
 CHECK_DEADLOCK FALSE
